@@ -31,12 +31,6 @@ ACCEPTED = {
         "extra guard is the sync-only 'not an async callable' test",
     ("actions", "return:guards"):
         "extra guard is the sync-only 'not an async callable' test",
-    ("actions", "-ELEM[P_actions].type.startswith('spawn_') and (not is_built:ambient-guard-a"):
-        "spawn_ prefix test: the sync twin spells ('spawn_', 'spawn_blocking_'); 'spawn_blocking_' starts with 'spawn_', so the predicates are equal",
-    ("actions", "-ELEM[P_actions].type.startswith(('spawn_', 'spawn_blocking_:ambient-guard-b"):
-        "see above: same predicate",
-    ("actions", "self._spawn_actor:guards"):
-        "see above: same predicate",
     ("done", "self._deliver:only-a"):
         "async routes the done.state event through _deliver(self, ...) so the raise-chain breaker counts it; with no delay _deliver "
         "is exactly send(); the sync engine's bound is the drain-loop counter (C13.R3)",
@@ -55,8 +49,6 @@ ACCEPTED_IF = {
         lambda d: set(d.b.guards) - set(d.a.guards) <= {g for g in d.b.guards if "_is_async_callable" in g} and not (set(d.a.guards) - set(d.b.guards)),
     ("actions", "return:guards"):
         lambda d: set(d.b.guards) - set(d.a.guards) <= {g for g in d.b.guards if "_is_async_callable" in g} and not (set(d.a.guards) - set(d.b.guards)),
-    ("actions", "self._spawn_actor:guards"):
-        lambda d: all("startswith" in g for g in set(d.a.guards) ^ set(d.b.guards)),
     ("done", "self._deliver:only-a"):
         lambda d: d.a is not None and d.a.args[:1] == ("self",) and "DoneEvent" in d.a.args[1] and d.a.args[2:] == ("None", "None"),
     ("done", "self.send:only-b"):
